@@ -134,6 +134,18 @@ def run(tier):
                     reversibility(ex, reg, src, n, m, autonomous=auto)
             except Unsupported as e:
                 reg.undecided(pre + "reversibility", "unsupported", "executor", str(e))
+    # ---- implicit symplectic classes: symplectic "up to solver tolerance" needs that an unconverged stage solve is never
+    #      handed back as an accepted step (same obligation as C02, on the real RungeKuttaIntegrator.__call__)
+    try:
+        from . import C02
+        R.under_contract(src.func(FT, "RungeKuttaIntegrator.__call__"))
+        ex = Executor(src, reg, prop=PID)
+        C02.check_call_skeleton(ex, reg, src, True, False)
+        for o in reg.obligations:
+            if o.name.startswith("C02/"):
+                o.name = o.name.replace("C02/", PID + "/", 1)
+    except Unsupported as e:
+        reg.undecided(PID + "/call-skeleton", "unsupported", "executor", str(e))
     # ---- bounded native clause
     try:
         nat = common.run_native("monitor/native_c10.py", dict(tier=tier, seed=R.seed, methods=flagged), timeout=1200)
